@@ -68,6 +68,7 @@ pub fn run(a: &Args) {
     let mut bads: Vec<Value> = vec![];
     let mut maxlen = 0usize;
     let load = a.get("load").is_some();
+    let chop = a.get("chop").is_some();
     let mut nreps = 0usize;
     for v in reps {
         nreps += 1;
@@ -88,7 +89,19 @@ pub fn run(a: &Args) {
             e["b"] = json!([0, 0, 0]);
             model_ev(&e)
         }).collect()).unwrap_or_default();
-        for be in [Backend::Str, Backend::Buf] {
+        // layout variant: the same stream without its final line break denotes the same events, unless the break belongs
+        // to a block scalar (chomping) -- used when the last scalar is not a block scalar
+        let chopped = if chop && !reject && text.ends_with('\n') && !text.ends_with("\n\n")
+            && exp.iter().rev().find(|e| e.k == "Scalar").map_or(true, |e| e.style != "literal" && e.style != "folded") {
+            Some(text[..text.len() - 1].to_string())
+        } else {
+            None
+        };
+        for (be, variant) in [(Backend::Str, false), (Backend::Buf, false), (Backend::Str, true), (Backend::Buf, true)] {
+            if variant && chopped.is_none() {
+                continue;
+            }
+            let text = if variant { chopped.clone().unwrap() } else { text.clone() };
             let r = if be == Backend::Str { run_str(&text) } else { run_buf(&text) };
             runs += 1;
             let why = if let Some(p) = &r.panic {
@@ -114,12 +127,12 @@ pub fn run(a: &Args) {
             };
             // drift = the implementation-shaped model and the real code disagree about this text
             // (model agrees with the reference expectation, the code does not, or vice versa)
-            if be == Backend::Str && v["model"].is_boolean() && (v["model"] == json!(true)) != why.is_empty() {
+            if be == Backend::Str && !variant && v["model"].is_boolean() && (v["model"] == json!(true)) != why.is_empty() {
                 model_disagrees += 1;
             }
             if !why.is_empty() {
                 bad += 1;
-                let b = json!({"t": text, "be": be.name(), "why": why, "tape": v["tape"], "info": v["info"], "model_agrees_with_renderer": v["model"],
+                let b = json!({"t": text, "be": be.name(), "variant": if variant { "final line break removed" } else { "" }, "why": why, "tape": v["tape"], "info": v["info"], "model_agrees_with_renderer": v["model"],
                     "real": r.evs.iter().map(|e| json!([e.k, e.v, e.style, e.aid])).collect::<Vec<_>>(), "err": r.err.as_ref().map(|e| e.msg.clone())});
                 if let Some(w) = bad_out.as_mut() {
                     writeln!(w, "{b}").unwrap();
